@@ -1,6 +1,8 @@
 //! module name -> binder
 use crate::abi::{AbiBinder, AbiOwnBinder};
 use crate::common::Obs;
+use crate::bridge::BridgeBinder;
+use crate::fees::FeesBinder;
 use crate::gas::GasBinder;
 use crate::gateway::GatewayBinder;
 use crate::its::ItsBinder;
@@ -14,6 +16,8 @@ pub enum B {
     Gateway(GatewayBinder),
     Token(TokenBinder),
     Gas(GasBinder),
+    Fees(FeesBinder),
+    Bridge(Box<BridgeBinder>),
     Operators(OperatorsBinder),
     Upgrade(UpgradeBinder),
     Abi(AbiBinder),
@@ -28,6 +32,8 @@ impl B {
             B::Gateway(b) => b.exec(act),
             B::Token(b) => b.exec(act),
             B::Gas(b) => b.exec(act),
+            B::Fees(b) => b.exec(act),
+            B::Bridge(b) => b.exec(act),
             B::Operators(b) => b.exec(act),
             B::Upgrade(b) => b.exec(act),
             B::Abi(b) => b.exec(act),
@@ -41,6 +47,8 @@ impl B {
             B::Gateway(b) => b.project(),
             B::Token(b) => b.project(),
             B::Gas(b) => b.project(),
+            B::Fees(b) => b.project(),
+            B::Bridge(b) => b.project(),
             B::Operators(b) => b.project(),
             B::Upgrade(b) => b.project(),
             B::Abi(b) => b.project(),
@@ -56,6 +64,8 @@ pub fn make_binder(module: &str, inst: &J, init: &J) -> B {
         "Gateway" => B::Gateway(GatewayBinder::new(inst, init)),
         "Token" => B::Token(TokenBinder::new(inst, init)),
         "GasService" => B::Gas(GasBinder::new(inst, init)),
+        "Fees" => B::Fees(FeesBinder::new(inst, init)),
+        "Bridge" => B::Bridge(Box::new(BridgeBinder::new(inst, init))),
         "Operators" => B::Operators(OperatorsBinder::new(inst, init)),
         "Upgrade" => B::Upgrade(UpgradeBinder::new(inst, init)),
         "Abi" => B::Abi(AbiBinder::new(inst, init)),
